@@ -458,7 +458,7 @@ class StepCheck:
                                   f"(evaluation order {list(game._reward_calculation_order)})")
                     e_in += abs(w) * e_cur.get(dc["agent"], self.e_cur.get(dc["agent"], Fraction(0)))
                 else:
-                    e_in += abs(w) * U * abs(v)  # a component does at most one rounding operation (the 404 average)
+                    e_in += abs(w) * gamma(1) * abs(v)  # a component does at most one rounding operation (the 404 average)
                 exact += w * v
                 mag += abs(w * v)
             if not ok:
